@@ -29,8 +29,10 @@ MANIFEST = {
                  "correspondence in coqc",
     "ref": "6 C06",
 }
-RULE = ("matcher expressions over a modelled value universe (ints, str, bytes, None, lists, dicts, attribute objects, "
-        "exc_info tuples, callables, paths in a scratch directory): typed exhaustive enumeration to depth 2 over "
+RULE = ("matcher expressions over a modelled value universe (ints, bools, floats, str, bytes, None, lists, dicts, "
+        "attribute objects, exc_info tuples, callables, paths in a scratch directory; falsy values 0 False 0.0 '' b'' "
+        "None [] {} and values equal across types 1 True 1.0 occur as matchees, list elements, attribute values, dict "
+        "values and dict keys): typed exhaustive enumeration to depth 2 over "
         "small leaf sets and about 6 values per family, then seeded random domain-directed expressions to depth 4; "
         "every MatchesSetwise case is rebuilt under all (at most 24) permutations of matcher creation order; "
         "non-trivial = at least one combinator; distinct = distinct JSON")
@@ -156,6 +158,10 @@ def mk_val(v, ctx):
     k = v[0]
     if k == "i":
         return v[1]
+    if k == "t":                    # bool
+        return bool(v[1])
+    if k == "f":                    # float, stored as twice its value (0.0, 0.5, 1.0, ...)
+        return v[1] / 2.0
     if k == "s":
         return v[1]
     if k == "b":
@@ -199,7 +205,7 @@ NOTES = ["note", "café ☃", "a'b\"c\\", "line1\nline2"]
 def mk_ty(t):
     if isinstance(t, list):
         return EXC[t[1]]
-    return {"int": int, "str": str, "bytes": bytes, "none": type(None), "list": list, "dict": dict, "rec": Obj,
+    return {"int": int, "bool": bool, "float": float, "str": str, "bytes": bytes, "none": type(None), "list": list, "dict": dict, "rec": Obj,
             "object": object, "tuple": tuple, "func": types.FunctionType}[t]
 
 
@@ -395,14 +401,49 @@ def t_str(cps):
     return q.lst([q.N(c) for c in cps])
 
 
+def key_norm(k):
+    """the dict key a JSON key denotes: 1, True and 1.0 are one key (they are == and hash alike)"""
+    if k[0] == "s":
+        return ("s", k[1])
+    if k[0] == "i":
+        return ("i", k[1])
+    if k[0] == "t":
+        return ("i", 1 if k[1] else 0)
+    if k[0] == "f" and k[1] % 2 == 0:
+        return ("i", k[1] // 2)
+    raise ValueError("not a modelled dict key: %r" % (k,))
+
+
+def dict_items(pairs):
+    """what a Python dict built from these (key, x) pairs holds: one entry per key, at the position of the key's
+    first occurrence, with the last x given for it"""
+    pos, out = {}, []
+    for kk, x in pairs:
+        n = key_norm(kk)
+        if n in pos:
+            out[pos[n]] = (n, x)
+        else:
+            pos[n] = len(out)
+            out.append((n, x))
+    return out
+
+
+def t_nkey(n):
+    return "(KInt %s)" % q.Z(n[1]) if n[0] == "i" else "(KStr %s)" % t_str(map(ord, n[1]))
+
+
 def t_key(k):
-    return "(KInt %s)" % q.Z(k[1]) if k[0] == "i" else "(KStr %s)" % t_str(map(ord, k[1]))
+    return t_nkey(key_norm(k))
 
 
 def t_val(v):
     k = v[0]
     if k == "i":
         return "(VInt %s)" % q.Z(v[1])
+    if k == "t":
+        return "(VBool %s)" % q.boolean(bool(v[1]))
+    if k == "f":
+        return "(VFloat %s)" % q.Z(v[1])
     if k == "s":
         return "(VStr %s)" % t_str(map(ord, v[1]))
     if k == "b":
@@ -412,7 +453,7 @@ def t_val(v):
     if k == "l":
         return "(VList %s)" % q.lst([t_val(x) for x in v[1]])
     if k == "d":
-        return "(VDict %s)" % q.lst([q.pair(t_key(kk), t_val(x)) for kk, x in v[1]])
+        return "(VDict %s)" % q.lst([q.pair(t_nkey(n), t_val(x)) for n, x in dict_items(v[1])])
     if k == "r":
         return "(VRec %s %s)" % (q.nat(v[1]), q.lst([q.pair(q.nat(a), t_val(x)) for a, x in v[2]]))
     if k == "x":
@@ -427,7 +468,7 @@ def t_val(v):
 def t_ty(t):
     if isinstance(t, list):
         return "(TExc %s)" % q.nat(t[1])
-    return {"int": "TInt", "str": "TStr", "bytes": "TBytes", "none": "TNone", "list": "TList", "dict": "TDict",
+    return {"int": "TInt", "bool": "TBool", "float": "TFloat", "str": "TStr", "bytes": "TBytes", "none": "TNone", "list": "TList", "dict": "TDict",
             "rec": "TRec", "object": "TObject", "tuple": "TTuple", "func": "TFunc"}[t]
 
 
@@ -461,7 +502,7 @@ def t_m(m):
     if k == "MatchesSetwise":
         return "(MatchesSetwise %s %s)" % (q.nat(m[1]), q.lst([t_m(x) for x in m[2]]))
     if k in ("MatchesDict", "ContainsDict", "ContainedByDict"):
-        return "(%s %s)" % (k, q.lst([q.pair(t_key(kk), t_m(x)) for kk, x in m[1]]))
+        return "(%s %s)" % (k, q.lst([q.pair(t_nkey(n), t_m(x)) for n, x in dict_items(m[1])]))
     if k == "MatchesStructure":
         return "(MatchesStructure %s)" % q.lst([q.pair(q.nat(a), t_m(x)) for a, x in m[1]])
     if k == "AfterPreprocessing":
